@@ -125,7 +125,7 @@ Proof.
   - apply getitem_inv, H.
   - intros E. inversion E. apply add_inv; assumption.
   - intros E. inversion E. apply add_inv; assumption.
-  - unfold sorted_by. destruct (lookup n (arrays c)); [|discriminate]. destruct (len c =? 0); [discriminate|]. apply select_inv, H.
+  - unfold sorted_by. destruct (lookup n (arrays c)); [|discriminate]. apply select_inv, H.
   - apply select_inv, H.
   - apply select_inv, H.
   - destruct (chunkify c size n) as [l| |] eqn:E; try discriminate.
